@@ -126,6 +126,7 @@ fn replay(rf: &ReplayFile) -> Vec<(String, String)> {
             let r = match expect.as_str() {
                 "canonical" => checks::c10::replay_decode(suite, *kind, &bytes.0),
                 "reject" => checks::c11::replay_decode(suite, *kind, *codec, &bytes.0),
+                "nopanic" => checks::c12::replay_decode(suite, *kind, *codec, &bytes.0, rf.seed),
                 _ => None,
             };
             r.map(|d| vec![(rf.clause.clone(), d)]).unwrap_or_default()
